@@ -41,8 +41,8 @@ ENCODE = "engines.deltaspace:sb_encode"
 FLAVOURS = (("rust", "rust"), ("py", "py"))  # (site prefix, sandbox flavour)
 CHUNK_FORM_MAX = 1 << 16  # deltas longer than this are only decoded in the bytes/bytes form
 
-FAST = {"wall_s": 20, "cpu_s": 15}  # decoding
-SLOW = {"wall_s": 240, "cpu_s": 200}  # encoding the big boundary pairs with difflib
+FAST = {"wall_s": 90, "cpu_s": 5, "max_timeouts": 3}  # decoding: the CPU limit decides; the wall clock only catches sleeping hangs (robust under load)
+SLOW = {"wall_s": 900, "cpu_s": 200}  # encoding the big boundary pairs with difflib
 
 
 def pools():
@@ -84,6 +84,10 @@ def judge_hostile(acc: Acc, site, bref, delta, form, obs, an, base, replay):
     feats = an.features()
     f0 = feats[0]
     acc.count("decodes")
+    if obs.kind == "skipped":  # circuit breaker of the sandbox: too many timeouts in this batch
+        acc.count("skipped_after_timeouts")
+        acc.outcome("dec:%s:skipped-after-timeouts" % site)
+        return "skipped"
     verdict = None
     bad = failure_of(obs)
     if bad:
@@ -294,6 +298,9 @@ def eval_pairs(acc: Acc, pairs, use_git=0, enc_forms=(0,), slow=False):
                 obs = res[k]
                 esite = site + ".create_delta"
                 acc.count("encodes")
+                if obs.kind == "skipped":
+                    acc.count("skipped_after_timeouts")
+                    continue
                 bad = _enc_failure(obs)
                 if bad:
                     acc.outcome("enc:%s:%s" % (esite, bad.split(":")[0]))
@@ -363,6 +370,9 @@ def eval_pairs(acc: Acc, pairs, use_git=0, enc_forms=(0,), slow=False):
                     obs = res[k]
                     dsite = site + ".apply_delta"
                     acc.count("roundtrips")
+                    if obs.kind == "skipped":
+                        acc.count("skipped_after_timeouts")
+                        continue
                     bad = failure_of(obs)
                     why = None
                     if bad:
@@ -553,10 +563,14 @@ def run(ctx):
            not any(c.startswith("dec:%s:delta-error" % site) for c in classes):
             raise HarnessError("vacuous run: %s never accepted / never rejected a hostile delta" % site)
     ctx.level = "exploration"
+    if n.get("skipped_after_timeouts"):
+        ctx.coverage["exhaustive"] = False
+        ctx.coverage["cap"] = ("%d sandbox calls were skipped by the timeout circuit breaker (3 timeouts per batch); the "
+                               "timeouts themselves are reported as violations" % n["skipped_after_timeouts"])
     ctx.coverage.update(
         evaluations=n.get("decodes", 0) + n.get("roundtrips", 0) + n.get("roundtrips_ref", 0) + n.get("roundtrips_git_index_pack", 0),
         distinct_nontrivial=len([c for c in classes if not c.endswith(":ok") and ":ok-valid:" not in c]),
-        exhaustive=True,
+        exhaustive=not n.get("skipped_after_timeouts"),
         rule=(
             "E4+E6 bounded-exhaustive. (a) all (base,target) in {a,b,NUL}^<=%d squared (%d pairs) + %d boundary pairs%s, "
             "each through every encoder {py,rust%s} x every decoder {py,rust,reference%s} x call forms {bytes, chunk lists}; "
